@@ -5,7 +5,7 @@ SPEC = dict(
     proof_files=['Proofs/SensorFloat.v', 'Proofs/Sensor.v', 'Proofs/LeafTie.v', 'Drv/Sensor.v'],
     tie_vo=['Proofs/LeafTie.vo'],
     drivers=[dict(name='sensor', drv_mod='Drv.Sensor', drv_file='Drv/Sensor.v', shard=60,
-                  args={'quick': ['n=600', 'hostile=60'], 'thorough': ['n=6000', 'hostile=600']},
+                  args={'quick': ['n=600', 'hostile=60', 'monitor=30'], 'thorough': ['n=6000', 'hostile=600', 'monitor=400']},
                   timeout={'quick': 600, 'thorough': 3000})],
     rule='seeded random cases: backend in {hwmon, file, cmd} (real HwmonSensor/FileSensor/CmdSensor on temp files / root-owned 0755 scripts), '
          'window n in 1..50 (hostile stream also 1e6 and 2^40), initial average from the real initializeSensors (valid or failing first read) '
@@ -15,7 +15,12 @@ SPEC = dict(
          'command exit code 1/2/127/255, missing command, garbage output, nan/NaN/inf/+Inf/-inf/Infinity/-Infinity/iNf, (thorough) timeout; '
          'integer texts with spaces, +sign, leading zeros, CRLF; floats printed as %g, %e or hex. A separate hostile stream (tag hostile) '
          'uses magnitudes 2^53, 2^62, 1e300, 1e308, MaxFloat64, subnormals (finding D20). GetMovingAvg() is compared bit-exactly after '
-         'every poll. Non-trivial = at least two distinct averages in the observed sequence; distinct = distinct Coq case terms.',
+         'every poll. Monitor-loop cases (tag monitor-loop, drv_sensor_mon.go): the REAL internal.NewSensorMonitor(sensor, 2-5 ms).Run(ctx) with its ticker polls a '
+         'hwmon/file sensor whose reads are served by util.VerifReadHook from a plan (good values, a streak of failed reads of 1..3 windows, a constant '
+         'good run, optionally a second streak), window 1..10; the hook runs once per poll inside the monitor goroutine and records the step served and '
+         'GetMovingAvg() at that moment, so the exact per-poll sequence is known whatever the timing (no assertion depends on how many ticks fire); the '
+         'case is judged bit-exactly against the model on the sequence actually served and by the same hull/skip/contraction observer. '
+         'Non-trivial = at least two distinct averages in the observed sequence; distinct = distinct Coq case terms.',
     assumptions=[
         'reading classes: strconv.Atoi / strconv.ParseFloat / os.ReadFile / os/exec are not modelled; the model starts from the class '
         '(ReadErr | ValZ z | ValF f) of one read and the driver feeds the corresponding text through the real parsers (glue observed, not proved)',
